@@ -42,7 +42,7 @@ PROP = {
             + [{"pkg": "./internal/promapi", "harness": ["harness/C14/wiring.go"], "intmode": True, "jobs": wiring_jobs},
                # part (S) for range queries: every slice request (also the only slice of a short range) goes through the pool while the key is held
                {"pkg": "./internal/promapi", "harness": ["harness/C14/wiring_range.go"], "intmode": True, "jobs": wiring_range_jobs}],  # parts (C) cache step and (W) worker bound, see props/C14_parts.py
-    "bounds": {"parts C/W": _parts.PROP["bounds"], "threads": "2-3 (thorough 4)", "lock rounds per thread": "1 (thorough: 2 for two threads)", "keys": 2, "steps": "24 fine-grained / 12-24 fused (thorough up to 64); the bound query shows these suffice for every schedule"},
+    "bounds": {"part S": "Query/Config/Flags/Metadata with an ok/failing pool; the real RangeQuery with 1 slice (range of 2..23 steps, symbolic) and 2 slices (thorough 3), ok/failing pool, every order of the slice goroutines", "parts C/W": _parts.PROP["bounds"], "threads": "2-3 (thorough 4)", "lock rounds per thread": "1 (thorough: 2 for two threads)", "keys": 2, "steps": "24 fine-grained / 12-24 fused (thorough up to 64); the bound query shows these suffice for every schedule"},
     "assumptions": ["sync.Mutex and sync.Cond behave as documented", "fused jobs: lock discipline (checked statically on the automaton)"] + _parts.PROP["assumptions"],
     "outside": ["worker pool, channels, ratelimit, real timing", "data races other than accesses to the lock's own map"],
 }
